@@ -399,6 +399,14 @@ impl RefStore {
 
     /// close + build + init (`lazy`: init_lazy)
     pub fn restart(&mut self, lazy: bool) {
+        let had_files = self.blobs().count() > 0;
+        self.restart_ext(lazy, had_files)
+    }
+
+    /// `had_files`: the directory held blob files when the start began (they may all have been
+    /// quarantined by it). A lazy start creates no active blob then; a start on a directory
+    /// without any blob file always does.
+    pub fn restart_ext(&mut self, lazy: bool, had_files: bool) {
         let mut all: Vec<BlobM> = self.blobs().cloned().collect();
         all.sort_by_key(|b| b.id);
         for b in all.iter_mut() {
@@ -411,14 +419,15 @@ impl RefStore {
         self.active = None;
         self.deferred = None;
         self.deadline = None;
+        if all.is_empty() && !(lazy && had_files) {
+            self.closed = Vec::new();
+            self.create_active();
+            return;
+        }
         if !lazy {
             if let Some(mut a) = all.pop() {
                 a.index_on_disk = false;
                 self.active = Some(a);
-            } else {
-                self.closed = Vec::new();
-                self.create_active();
-                return;
             }
         }
         self.closed = all.into_iter().map(Some).collect();
